@@ -34,6 +34,12 @@ MANY = "many"
 UNB = "unb"
 
 
+def _height(st, name, node):
+    if name not in st.stacks:
+        raise Unsupported(node, f"height of the stack-like list `{name}` is not known on this path")
+    return st.stacks[name]
+
+
 class Unsupported(Exception):
     def __init__(self, node, why):
         self.node = node
@@ -269,7 +275,7 @@ class Engine:
                 outs = []
                 for _, s in (self.eval(c.args[0], st, d) if c.args else [(None, st)]):
                     s = s.copy()
-                    h = s.stacks[name]
+                    h = _height(s, name, c)
                     s.stacks[name] = 1 if h == 0 else MANY
                     if s.e != UNB:
                         s.e -= 1
@@ -278,7 +284,7 @@ class Engine:
                     outs.append((("other",), s))
                 return outs
             if f.attr == "pop" and not c.args:
-                h = st.stacks[name]
+                h = _height(st, name, c)
                 if h == 0:
                     return []  # IndexError: the path ends in an exception
                 outs = []
@@ -355,7 +361,7 @@ class Engine:
         return out
 
     def _stack_zero(self, name, st, zero_truth: bool):
-        h = st.stacks[name]
+        h = _height(st, name, None)
         if h == 0:
             return [(zero_truth, st)]
         return [(not zero_truth, st)]
@@ -400,7 +406,7 @@ class Engine:
             opt = flip.get(opt, opt)
         if a[0] != "len" or b[0] != "int":
             return [(True, st), (False, st.copy())]
-        h, n = st.stacks[a[1]], b[1]
+        h, n = _height(st, a[1], None), b[1]
         cands = {0: [0], 1: [1], MANY: [2, 3, 4, 5]}[h]
 
         def ev(x):
